@@ -249,7 +249,8 @@ func runC13(c *Ctx, r *Report, tier string) {
 		switch {
 		case t == "call:(*Group).groupByName(Command.Group(P0), P1)":
 			okOwn = true
-		case t == "call:(*Command).groupByName("+sub+", slice(P1, len("+prefix+"), _))":
+		case t == "call:(*Command).groupByName("+sub+", slice(P1, len("+prefix+"), _))",
+			t == "call:(*Command).groupByName("+sub+", call:strings.TrimPrefix(P1, "+prefix+"))":
 			_, req := c.Requires(cg, isInstr(s), litIs("call:strings.HasPrefix(P1, "+prefix+")", true), nil)
 			okRec = req
 		case strings.HasPrefix(t, "call:(*Group).groupByName(Command.Group("+sub) || strings.HasPrefix(t, "call:(*Group).groupByName("):
